@@ -17,6 +17,7 @@ from typing import List, Optional
 from rules._tags import GROUPERS, NAMERS, grouping_of, naming_of
 from sa.cfg import CFG
 from sa.model import AnalysisError, Function, Repo, calls_in, const_str, dotted, norm, own_nodes, parent
+from sa.match import Locals
 from sa.report import Report
 from sa.resolve import Resolver
 
@@ -43,12 +44,15 @@ def run(repo: Repo, rep: Report, tier: str) -> None:
                       "the three tag groupings are not the same function of the operations", forms[-1][1].loc())
     # the grouped dict is keyed by the canonical *spelling* (the key that names classes/modules), not by the normalised key
     mg = repo.func("emitters.mocks_emitter:MocksEmitter._group_operations_by_tag")
-    stores = [n for n in own_nodes(mg.node) if isinstance(n, ast.Assign) and isinstance(n.targets[0], ast.Subscript) and "operations_by_tag" in norm(n.targets[0].value)]
-    okk = bool(stores) and all("canonical" in norm(s.targets[0].slice) or "max(" in norm(s.targets[0].slice) for s in stores)
+    ML = Locals(mg.node)
+    returned = {x.id for r in own_nodes(mg.node) if isinstance(r, ast.Return) and r.value is not None for x in ast.walk(r.value) if isinstance(x, ast.Name)}
+    stores = [n for n in own_nodes(mg.node) if isinstance(n, ast.Assign) and isinstance(n.targets[0], ast.Subscript) and isinstance(n.targets[0].value, ast.Name)
+              and ML.root(n.targets[0].value.id) in returned]
+    okk = bool(stores) and all(any(isinstance(c, ast.Call) and dotted(c.func) == "max" for c in ast.walk(ML.inline(s.targets[0].slice))) for s in stores)
     if okk:
         rep.ok("R13.2", f"{mg.module.relpath}:{mg.qualname} result keyed by canonical tag", "the returned mapping is keyed by the max(tag_score) spelling that also names the client class and module", mg.loc())
     else:
-        rep.violation("R13.2", f"{mg.module.relpath}:{mg.qualname} result keyed by canonical tag", f"{mg.fq}|keyed-by|{[norm(s.targets[0].slice) for s in stores]}",
+        rep.violation("R13.2", f"{mg.module.relpath}:{mg.qualname} result keyed by canonical tag", f"{mg.fq}|keyed-by-non-canonical",
                       "the mocks are keyed by something other than the canonical tag spelling: class/module names derived from it differ from the client's "
                       "(e.g. 'Order Items' -> orderitems vs order_items)", mg.loc())
 
@@ -63,17 +67,21 @@ def run(repo: Repo, rep: Report, tier: str) -> None:
         else:
             rep.violation("R13.4", sub, f"{fn.fq}|naming|{n}", f"the {label} derives tag client names with {n}, the endpoints emitter with {ref}", fn.loc())
     # Protocol / mock class name patterns
-    pats = {}
+    pats: dict = {}
     for label, spec in NAMERS:
         fn = repo.func(spec)
+        FL = Locals(fn.node)
         for n in own_nodes(fn.node):
-            if isinstance(n, ast.Assign) and isinstance(n.targets[0], ast.Name) and n.targets[0].id in ("protocol_name", "mock_class_name", "class_name"):
-                pats.setdefault(n.targets[0].id, set()).add(norm(n.value).replace("canonical_tag_name", "tag").replace("tag_map[key]", "tag").replace("{cls}", "{class_name}"))
-    for var, forms_ in sorted(pats.items()):
+            if isinstance(n, ast.Assign) and isinstance(n.targets[0], ast.Name):
+                nf = _name_pattern(n.value)
+                if nf is not None:
+                    # grouped by the constant affix that identifies the kind of name (…Client, …Protocol, Mock…)
+                    pats.setdefault(nf[0], set()).add(nf[1])
+    for kind, forms_ in sorted(pats.items()):
         if len(forms_) == 1:
-            rep.ok("R13.4", f"`{var}` pattern", f"one derivation everywhere: {sorted(forms_)[0]}", "")
+            rep.ok("R13.4", f"`{kind}` name pattern", f"one derivation everywhere: {sorted(forms_)[0]}", "")
         else:
-            rep.violation("R13.4", f"`{var}` pattern", f"pattern|{var}|{sorted(forms_)}", f"`{var}` is derived in different ways: {sorted(forms_)}", "")
+            rep.violation("R13.4", f"`{kind}` name pattern", f"pattern|{kind}|{sorted(forms_)}", f"`{kind}` names are derived in different ways: {sorted(forms_)}", "")
 
     # ---------------------------------------------------------------- R13.1 single source
     res = Resolver(repo)
@@ -81,7 +89,7 @@ def run(repo: Repo, rep: Report, tier: str) -> None:
     for label, spec in (("Protocol stubs", "visit.endpoint.endpoint_visitor:EndpointVisitor.generate_endpoint_protocol"),
                         ("mock methods", "visit.endpoint.generators.mock_generator:MockGenerator.generate")):
         fn = repo.func(spec)
-        gens = [c for c in calls_in(fn.node) if isinstance(c.func, ast.Attribute) and c.func.attr == "generate" and "method_generator" in norm(c.func.value)]
+        gens = [c for c in calls_in(fn.node) if isinstance(c.func, ast.Attribute) and c.func.attr == "generate" and _is_method_generator(fn, c.func.value)]
         sub = f"{fn.module.relpath}:{fn.qualname} signature source"
         if len(gens) == 1:
             rep.ok("R13.1", sub, f"{label} are cut out of the text EndpointMethodGenerator.generate returns for the same operation", fn.loc(gens[0]))
@@ -115,7 +123,9 @@ def run(repo: Repo, rep: Report, tier: str) -> None:
 
     raise_nodes = writes("raise NotImplementedError(")
     # the signature loop: `for sig in signature_lines: writer.write_line(sig)`
-    sig_loops = [n.id for n in cfg.nodes if n.kind == "iter" and "signature_lines" in norm(n.ast)]
+    sig_loops = [n.id for n in cfg.nodes if n.kind == "iter" and isinstance(n.stmt, ast.For) and isinstance(n.stmt.target, ast.Name) and any(
+        isinstance(c.func, ast.Attribute) and c.func.attr == "write_line" and c.args and isinstance(c.args[0], ast.Name) and c.args[0].id == n.stmt.target.id
+        for st in n.stmt.body for c in calls_in(st))]
     rep.require(bool(sig_loops) and bool(raise_nodes), "R13.3: anchors missing in _transform_to_mock (signature loop / raise line)")
     for sl in sig_loops:
         done = [m for m, lab in cfg.succ[sl] if lab == "done"]
@@ -130,20 +140,77 @@ def run(repo: Repo, rep: Report, tier: str) -> None:
     # nothing executable is emitted before the raise except the docstring
     # ---------------------------------------------------------------- R13.5 nature decision
     ev = repo.func("visit.endpoint.endpoint_visitor:EndpointVisitor.generate_endpoint_protocol")
-    decisions = []
+    IR_ATTRS = {"responses", "stream", "is_streaming", "content", "return_type", "stream_format"}
     for fn in (ev, tm):
-        for n in own_nodes(fn.node):
-            if isinstance(n, ast.Assign) and isinstance(n.targets[0], ast.Name) and n.targets[0].id == "is_async_generator" and not (
-                    isinstance(n.value, ast.Constant)):
-                decisions.append((fn, n))
-    rep.require(len(decisions) >= 2, f"R13.5: expected the async-generator decision in Protocol and mock generation, found {len(decisions)}")
-    for fn, n in decisions:
-        v = n.value
-        from_sig = isinstance(v, ast.Compare) and const_str(v.left) == "AsyncIterator" and isinstance(v.ops[0], ast.In) and "sig" in norm(v.comparators[0])
-        sub = f"{fn.module.relpath}:{fn.qualname} `{norm(n)[:60]}`"
-        if from_sig:
-            rep.ok("R13.5", sub, "decided from the rendered signature's return annotation (the same text the client method has)", fn.loc(n))
-        else:
-            rep.violation("R13.5", sub, f"{fn.fq}|nature|{norm(v)[:60]}",
+        FL = Locals(fn.node)
+        tests = [n for n in own_nodes(fn.node) if isinstance(n, ast.Compare) and len(n.ops) == 1 and isinstance(n.ops[0], ast.In) and const_str(n.left) == "AsyncIterator"]
+        sub = f"{fn.module.relpath}:{fn.qualname} coroutine / async-generator decision"
+        if not tests:
+            rep.violation("R13.5", sub, f"{fn.fq}|nature|not-from-signature",
                           "coroutine vs async-generator nature is decided from something other than the rendered signature: the mock/Protocol can be an "
-                          "async generator while the client method is a coroutine (awaiting the mock raises TypeError)", fn.loc(n))
+                          "async generator while the client method is a coroutine (awaiting the mock raises TypeError)", fn.loc())
+            continue
+        for t in tests:
+            src = FL.inline(t.comparators[0], stop=tuple(FL.params))
+            from_ir = sorted({x.attr for x in ast.walk(src) if isinstance(x, ast.Attribute) and x.attr in IR_ATTRS})
+            if not from_ir:
+                rep.ok("R13.5", sub, f"`{norm(t)[:60]}`: decided from the rendered signature's return annotation (the same text the client method has)", fn.loc(t))
+            else:
+                rep.violation("R13.5", sub, f"{fn.fq}|nature|from-ir|{from_ir}",
+                              f"the decision text derives from the IR ({from_ir}) instead of the rendered signature", fn.loc(t))
+
+
+def _name_pattern(v: ast.AST):
+    """('Client'|'Protocol'|'Mock…', normal form) for expressions that build a name from one hole and a constant affix:
+    f'{x}Protocol', x + 'Protocol', f'Mock{x}', NameSanitizer.sanitize_class_name(t) + 'Client' ...; None otherwise."""
+    parts = []
+
+    def flat(e: ast.AST) -> bool:
+        if isinstance(e, ast.JoinedStr):
+            for p in e.values:
+                if isinstance(p, ast.Constant):
+                    parts.append(("c", str(p.value)))
+                elif isinstance(p, ast.FormattedValue):
+                    parts.append(("h", _hole(p.value)))
+            return True
+        if isinstance(e, ast.BinOp) and isinstance(e.op, ast.Add):
+            return flat(e.left) and flat(e.right)
+        if isinstance(e, ast.Constant) and isinstance(e.value, str):
+            parts.append(("c", e.value))
+            return True
+        if isinstance(e, (ast.Name, ast.Call, ast.Subscript, ast.Attribute)):
+            parts.append(("h", _hole(e)))
+            return True
+        return False
+
+    def _hole(e: ast.AST) -> str:
+        if isinstance(e, ast.Call) and (dotted(e.func) or "").startswith("NameSanitizer."):
+            return (dotted(e.func) or "") + "($)"
+        return "$"
+
+    if not isinstance(v, (ast.JoinedStr, ast.BinOp)) or not flat(v):
+        return None
+    consts = [t for k, t in parts if k == "c" and t]
+    holes = [t for k, t in parts if k == "h"]
+    if len(holes) != 1 or len(consts) != 1 or not consts[0].isidentifier():
+        return None
+    kind = consts[0]
+    if kind not in ("Client", "Protocol", "Mock"):
+        return None
+    return kind, "".join(t if k == "c" else "{" + t + "}" for k, t in parts)
+
+
+def _is_method_generator(fn: Function, recv: ast.AST) -> bool:
+    """the receiver is an EndpointMethodGenerator: a local bound to its constructor, or a self attribute assigned from it in __init__"""
+    L = Locals(fn.node)
+    if isinstance(recv, ast.Name):
+        v = L.single(recv.id)
+        return isinstance(v, ast.Call) and (dotted(v.func) or "").split(".")[-1] == "EndpointMethodGenerator"
+    if isinstance(recv, ast.Attribute) and isinstance(recv.value, ast.Name) and recv.value.id == "self" and fn.cls is not None:
+        for m in fn.cls.methods.values():
+            for n in own_nodes(m.node):
+                if isinstance(n, (ast.Assign, ast.AnnAssign)):
+                    tg = n.targets[0] if isinstance(n, ast.Assign) else n.target
+                    if isinstance(tg, ast.Attribute) and tg.attr == recv.attr and isinstance(n.value, ast.Call) and (dotted(n.value.func) or "").split(".")[-1] == "EndpointMethodGenerator":
+                        return True
+    return False
